@@ -31,6 +31,7 @@ REQUIRED = ['observations', 'preludes', 'proc_crosschecks', 'pty_cases', 'popen_
 
 SIGNALS = [1, 2, 3, 6, 9, 10, 12, 13, 14, 15, 24, 25, 26, 27, 29, 30, 31, 34, 40, 64, 4, 8, 11, 7, 5]
 # realtime signals the language has no name for (signal.Signals(n) raises): a number is a number
+CORE_SIGNALS = (3, 4, 6, 7, 8, 11, 24, 25, 31)
 UNNAMED = [35, 36, 41, 49, 50, 57, 62, 63]
 PATHS = ['isalive', 'wait', 'close', 'terminate', 'eof-isalive', 'eof-wait', 'eof-close', 'read-eof-isalive',
          'close-noforce', 'terminate-force']
@@ -61,6 +62,10 @@ def plan(tier, seed):
             for i, p in enumerate(paths):
                 if tier == 'thorough' or (i + j + k) % 3 == 0:
                     cases.append({'tr': 'pty', 'fate': f, 'path': p, 'prelude': prelude})
+        if f[0] == 'signal' and f[1] in CORE_SIGNALS:
+            # the same death with core files allowed: the wait status carries the 'core dumped' bit next to the number
+            for p in (PATHS if tier == 'thorough' else PATHS[:4]):
+                cases.append({'tr': 'pty', 'fate': f, 'path': p, 'core': True})
         for p in ('wait', 'eof-wait', 'kill-wait', 'kill-kill-wait', 'send-wait', 'send-send-wait'):
             cases.append({'tr': 'popen', 'fate': f, 'path': p})
         cases.append({'tr': 'run', 'fate': f, 'path': 'run', 'u': (f[1] % 2 == 0)})
@@ -278,6 +283,12 @@ def pty_case(case, acc, rng):
                 return
         if fate[0] == 'exit':
             st = pup.exit(fate[1])
+        elif case.get('core'):
+            st = pup.dump_self(fate[1])
+            st = wait_state(pid, ('Z',))
+            acc.count('deaths_with_core_files_allowed')
+            if st is not None and st[0] == 'Z' and st[3] is not None and st[3] & 0x80:
+                acc.count('deaths_with_core_dumped_bit')
         else:
             st = pup.kill_self(fate[1])
             st = wait_state(pid, ('Z',))
